@@ -14,7 +14,7 @@ let show_pinfo (i : finfo) =
 
 let show_sres (r : pres) : string = match r with
   | SOk -> "ok"
-  | SErr e -> Printf.sprintf "E L%d" (int_of_n e)
+  | SErr e -> if int_of_n e = 9998 then "E Gtoomany" else Printf.sprintf "E L%d" (int_of_n e)
   | SInfo i -> "I " ^ show_pinfo i
   | SStr s -> "S " ^ tok_of_str s
   | SBytes b -> Printf.sprintf "B %d %s nil" (List.length b) (tok_of_str b)
@@ -100,7 +100,7 @@ let run () =
                           && Drv_fs.snapshot_text wi = Drv_fs.snapshot_text (world_of w') in
                (match c, r with CChdir _, SOk -> cwdstr := cur_path w' | _ -> ());
                outs := (Printf.sprintf "%s%s ~%s ~%s ~%s%s ~%s" sr ss kf (if same then "T" else "F")
-                          (if moved && uses_cwd c then "m" else "") (shapes !w c)
+                          (if uses_cwd c then (if moved then "m" else "c") else "") (shapes !w c)
                           (if cwd_alive w' then "A" else "D")) :: !outs;
                w := w') ops;
              print_endline (String.concat " | " (List.rev !outs))
